@@ -221,7 +221,7 @@ func Preset(prop string, adversarial bool, r *scen.Rand) *Params {
 		p.SortP = 0.3
 		p.TasksP = 0.3
 		p.FaultP = 0.5
-		p.KillP = 0.1
+		p.KillP = 0.25
 		p.PreCorruptP = 0.15
 		p.ReplayP = 0.5
 		p.CleanAgainP = 0.5
